@@ -34,6 +34,8 @@ func plan(tier string) []family {
 				func(emit func(Case)) { Structure(0, 3, []int{2}, emit) }},
 			{"live cache handle: every sequence of <= 3 operations (set-title, comment, status, labels, edit-comment and set-metadata on the create / latest comment) made and read through one live RepoCache handle, every chunking, with and without Snapshot() before every append",
 				func(emit func(Case)) { Live(3, emit) }},
+			{"open cache on the second replica: every sequence of <= 3 operations (set-title, comment, status, set-metadata) delivered in 2-4 pushes to one RepoCache kept open on replica B (cache Fetch+MergeAll after each), with and without a Resolve between the deliveries; then an edit through B's handle",
+				func(emit func(Case)) { LongLived(3, emit) }},
 		}
 	}
 	return []family{
@@ -43,6 +45,8 @@ func plan(tier string) []family {
 			func(emit func(Case)) { Structure(0, 4, []int{0, 1, 2}, emit) }},
 		{"live cache handle: every sequence of <= 4 operations (set-title, comment, status, labels, edit-comment and set-metadata on the create / latest comment) made and read through one live RepoCache handle, every chunking, with and without Snapshot() before every append",
 			func(emit func(Case)) { Live(4, emit) }},
+		{"open cache on the second replica: every sequence of <= 4 operations (set-title, comment, status, set-metadata) delivered in 2-5 pushes to one RepoCache kept open on replica B (cache Fetch+MergeAll after each), with and without a Resolve between the deliveries; then an edit through B's handle",
+			func(emit func(Case)) { LongLived(4, emit) }},
 		{"structure: every sequence of exactly 5 operations after the create, every chunking into commits, one author",
 			func(emit func(Case)) { Structure(5, 5, []int{0}, emit) }},
 	}
@@ -169,6 +173,8 @@ func Main(args []string) {
 			l := *maxLen
 			if strings.HasPrefix(fam.Name, "values") {
 				gen = func(emit func(Case)) { Values(l, emit) }
+			} else if strings.HasPrefix(fam.Name, "open cache") {
+				gen = func(emit func(Case)) { LongLived(min(l, 3), emit) }
 			} else if strings.HasPrefix(fam.Name, "live cache") {
 				gen = func(emit func(Case)) { Live(min(l, 3), emit) }
 			} else if strings.Contains(fam.Name, "<= 4") {
@@ -198,7 +204,7 @@ func Main(args []string) {
 				}
 			}
 		})
-		for v := 0; v < 5; v++ {
+		for v := 0; v < 7; v++ {
 			if len(cur[v]) > 0 {
 				lines = append(lines, strings.Join(cur[v], " "))
 			}
